@@ -16,7 +16,7 @@ features (PyF+ : shapes on which rope's scoping is known to depart from CPython,
     "classbody"   a class body that reads a global homonymous with an inherited / instance attribute
     "lambda"      lambda expressions
     "builtin"     builtins used as plain names more often (rename of a builtin)
-    "package"     one library module lives in a package (pk/__init__.py + pk/mc.py)
+    "package"     one library module lives in a package (pk/__init__.py + pk/<m>.py)
     "compiter"    the first iterable of a comprehension may read the comprehension's own variable name
     "fstring"     f-strings although a function may be called f
     "reimport"    a name bound by an import may be imported again from another module
@@ -176,6 +176,10 @@ class Gen:
                 kw = True       # later ones must be keywords
                 continue
             e = self.expr(sc, depth + 1, avoid)
+            ints = [n0 for n0 in sc.visible("int") if n0 not in avoid]
+            if ints and not kw and kind != "kwonly" and self.chance(0.12):
+                out.append("%s == %d" % (self.pick(ints), self.rng.randrange(0, 9)))      # positional, a comparison
+                continue
             if kind == "kwonly" or kw or self.chance(0.35):
                 kw = True
                 out.append("%s=%s" % (p, e))
@@ -335,6 +339,17 @@ class Gen:
             self.emit(ind, "print(%s, '%s', \"%s %s\")  # %s" % (self.expr(sc), self.pick(INTS + self.funs), self.pick(INTS),
                                                             self.pick(MODS), self.pick(INTS)))
             return
+        if r < 0.34:
+            # a name as the left operand of == directly after ( or , inside the parentheses of a call
+            ints = sc.visible("int")
+            if ints:
+                parts = ["%s == %d" % (self.pick(ints), self.rng.randrange(0, 9))]
+                if self.chance(0.5):
+                    parts.insert(0, self.expr(sc, 1))
+                if self.chance(0.3):
+                    parts.append("%s == %s" % (self.pick(ints), self.atom(sc)))
+                self.emit(ind, "print(%s)" % ", ".join(parts))
+                return
         self.emit(ind, "print(%s)" % ", ".join(self.expr(sc) for _ in range(self.rng.randrange(1, 3))))
 
     def compound(self, sc, ind, glob=()):
@@ -541,6 +556,20 @@ class Gen:
                 cs.names[a] = Info("int")
                 info.cattrs.add(a)
             n += 1
+        own_attrs = sorted(a for a in cs.names if cs.names[a].typ == "int")
+        if own_attrs and self.chance(0.7):
+            # written directly in the class body: the outermost iterable is evaluated in the class scope (it reads the
+            # attribute), the element only sees the comprehension's own variable
+            a = self.pick(own_attrs)
+            b = self.pick([v for v in INTS if v != a])
+            v = self.pick([w for w in INTS if w != a and w != b] or ["s"])
+            it = self.pick(["range(%s %% 3)" % a, "[%s, 1]" % a, "(%s, %s)" % (a, a)])
+            form = self.pick(["sum([%s * 2 for %s in %s])", "len({%s for %s in %s})", "sum((%s) for %s in %s)",
+                              "len({%s: 0 for %s in %s})"])
+            self.emit(ind + 1, "%s = %s" % (b, form % (v, v, it)))
+            cs.names[b] = Info("int")
+            info.cattrs.add(b)
+            n += 1
         if self.chance(0.6):
             init = self.gen_def(cs, ind + 1, "__init__", method_of=info)
             info.init = init.params
@@ -568,11 +597,14 @@ class Gen:
         ex = self.exports[m]
         r = self.rng.random()
         if r < 0.35 or not ex:
-            if self.chance(0.25):
-                alias = self.pick(MODS + ["mz"])
+            if self.chance(0.4):
+                alias = self.pick(MODS + ["mz", "m", "m"])       # "m" is a prefix of ma / mb / mc
                 if alias in sc.names:
                     return
-                self.emit(ind, "import %s as %s" % (m, alias))
+                if "." in m and self.chance(0.5):
+                    self.emit(ind, "from %s import %s as %s" % (m.rsplit(".", 1)[0], m.rsplit(".", 1)[1], alias))
+                else:
+                    self.emit(ind, "import %s as %s" % (m, alias))
                 sc.names[alias] = Info("mod", target=m)
             else:
                 cur = sc.names.get(m.split(".")[0])
@@ -581,7 +613,15 @@ class Gen:
                     if not (cur.typ == "mod" and getattr(cur, "target", None) == m):
                         return
                 self.emit(ind, "import %s" % m)
-                sc.names[m.split(".")[0]] = Info("mod", target=m) if "." not in m else Info("pkg")
+                if "." not in m:
+                    sc.names[m] = Info("mod", target=m)
+                    if "m" not in sc.names and self.chance(0.15):
+                        self.emit(ind, "m = %s" % m)           # a variable that is bound to the module
+                        sc.names["m"] = Info("mod", target=m)
+                else:
+                    # reached through its dotted path: pk.sb.mc.f()
+                    sc.names[m.split(".")[0]] = Info("pkg")
+                    sc.names[m] = Info("mod", target=m)
         else:
             names = sorted(ex)
             k = self.rng.randrange(1, min(3, len(names)) + 1)
@@ -630,6 +670,11 @@ class Gen:
         elif self.chance(0.3):
             self.emit(0, '"""%s %s"""' % (self.pick(INTS), self.pick(self.funs)))
         n = self.rng.randrange(5, 10) if not is_main else self.rng.randrange(6, 12)
+        deep = getattr(self, "deep", None) if is_main else None
+        if deep:
+            self.emit(0, "import %s" % deep)
+            sc.names[deep.split(".")[0]] = Info("pkg")
+            sc.names[deep] = Info("mod", target=deep)
         for k in range(n):
             r = self.rng.random()
             self.noise(0)
@@ -663,6 +708,12 @@ class Gen:
                 self.compound(sc, 0)
         for _ in range(self.rng.randrange(1, 4) if is_main else self.rng.randrange(0, 2)):
             self.print_stmt(sc, 0)
+        if deep:
+            for nme, i0 in sorted(self.exports.get(deep, {}).items()):
+                if i0.typ == "int":
+                    self.emit(0, "print(%s.%s)" % (deep, nme))
+                elif i0.typ == "fun":
+                    self.emit(0, "print(%s.%s(%s))" % (deep, nme, self.args(sc, i0.params, 1, ())))
         # a module imported under its own name that defines a homonym on its first line: make sure it is used
         for mn, mi in sorted(sc.names.items()):
             if mi.typ == "mod" and mn == mi.target and mn in self.exports.get(mn, {}):
@@ -688,6 +739,14 @@ class Gen:
             else:
                 files[m + ".py"] = self.module(m, avail, False)
                 avail = avail + [m]
+        self.deep = None
+        if self.chance(0.4):
+            # a module two packages deep, reached through its dotted path
+            files["pk/__init__.py"] = files.get("pk/__init__.py", "")
+            files["pk/sb/__init__.py"] = ""
+            files["pk/sb/mc.py"] = self.module("pk.sb.mc", [a for a in avail if "." not in a], False)
+            self.deep = "pk.sb.mc"
+            avail = avail + ["pk.sb.mc"]
         files["main.py"] = self.module("main", avail, True)
         return {"files": files, "entry": "main.py"}
 
